@@ -497,7 +497,14 @@ class FieldValueSelector:
                 msg = _("%r field doesn't have a simple type!")
                 raise XMLSchemaTypeError(msg % self.field)
             elif xsd_type.is_qname():
-                value = get_extended_qname(node.string_value.strip(), namespaces)
+                # A QName is resolved with the namespace declarations in scope of
+                # the element that carries it: a field on a child element can have
+                # xmlns declarations of its own, that override the provided map.
+                owner = node if isinstance(node, ElementNode) else node.parent
+                nsmap = None if owner is element_node else getattr(owner, 'nsmap', None)
+                if nsmap:  # (lxml maps the default namespace to None)
+                    nsmap = {**(namespaces or {}), **{k or '': v for k, v in nsmap.items()}}
+                value = get_extended_qname(node.string_value.strip(), nsmap or namespaces)
             elif xsd_type.is_boolean():
                 # Workarounds for discovered issues with XPath processors
                 value = xsd_type.text_decode(node.string_value.strip())
